@@ -1,7 +1,8 @@
 """C11 — check configuration and MANIFEST entry."""
 CFG = {
+    'translator': True,
     "count": {"quick": 120000, "thorough": 6000000},
-    "lean_files": ["GeoModel/Orient.lean", "GeoModel/Segment.lean", "GeoModel/LineIntersection.lean", "GeoModel/Ops/C11.lean",
+    "lean_files": ["GeoModel/Orient.lean", "GeoModel/Segment.lean", "GeoModel/LineIntersection.lean", "GeoModel/Gen/CollinearTable.lean", "GeoModel/Ops/C11.lean",
                    "GeoProofs/Lemmas/SegmentSpec.lean", "GeoProofs/Lemmas/LISpec.lean"],
     "rule": "pairs of segments: 50% on 2..5-grids (all coincidence classes incl. zero-length), 10% collinear on a common lattice line, "
             "20% adversarial f64 (T-junction / touching end point nudged by 1-3 ulps), 10% nearly parallel at magnitudes up to 2^43, 10% wild floats; "
